@@ -116,6 +116,9 @@ def write_behaviours(ctx, behs, name):
 def engine(ctx, test, env, name, timeout=600):
     """Run a logh engine; a crash of the process inside the logger goroutine is an observation of
     the real code (violation), any other abnormal end is inconclusive."""
+    if any(v["key"].startswith("noblock:logger-goroutine-busy") for v in ctx.violations):
+        ctx.notes.append("engine %s skipped: the logger goroutine was already seen spinning" % name)
+        return {}
     rep = ctx.go_engine("logh", test, env=env, timeout=timeout, name=name, allow_crash=True)
     if rep.get("_exit") == 0 and "cases" in rep:
         _progress(ctx)
@@ -221,7 +224,40 @@ def clauses_of(p):
     return sorted(s)
 
 
+def replay(ctx):
+    """vcheck C20 --replay evidence/replays/C20-<hash>.json: re-execute one reported case."""
+    rp = json.load(open(ctx.replay)).get("replay") or {}
+    eng = rp.get("engine", "")
+    if eng.startswith("replay") and rp.get("steps"):
+        b = [{"id": 1, "cap": rp["cap"], "cls": "lf", "src": "replay-file",
+              "steps": [x[:3] if x[0] == "FilterServe" else x for x in rp["steps"]]}]
+        if predict(ctx, b, "replay"):
+            engine(ctx, "TestReplay", {"VERIF_BEHAVIOURS": write_behaviours(ctx, b, "replay")}, "replay")
+    elif eng == "traces" and "seed" in rp:
+        engine(ctx, "TestTraces", {"VERIF_ONLY_CASE": "%s:%s" % (rp.get("case", 1), rp["seed"])}, "traces")
+    elif eng == "traces" and "trace" in rp:
+        p = ctx.path("replay.ndjson")
+        with open(p, "w") as f:
+            for e in rp["trace"]:
+                f.write(json.dumps(e) + "\n")
+        v = validate(ctx, p, "replay", parts=1)
+        for pv, case in v["propviol"]:
+            ctx.violation("tlc:filter:%s" % "+".join(clauses_of(pv)), "recorded trace breaks C20", {"engine": "traces", "trace": case})
+    else:
+        ctx.inconclusive.append("this replay file (engine %r) is re-executed by running the check with the seed recorded in it" % eng)
+    evp = os.path.join(os.path.dirname(os.path.dirname(os.path.dirname(os.path.abspath(__file__)))), "evidence", "C20.json")
+    old = open(evp).read() if os.path.exists(evp) else None
+    code = ctx.finish("model_checking", {"states": 0, "transitions": 0, "traces_validated_against_impl": 1, "samples": [rp],
+                                         "evaluations": 1, "distinct_nontrivial": 1, "rule": "re-execution of one case"}, [])
+    if old is not None:      # a re-execution does not replace the evidence of the last tier run
+        with open(evp, "w") as f:
+            f.write(old)
+    return code
+
+
 def run(ctx):
+    if ctx.replay:
+        return replay(ctx)
     quick = ctx.quick
     rng = random.Random(ctx.seed)
     states = transitions = 0
@@ -232,34 +268,43 @@ def run(ctx):
 
     # ------------------------------------------------------------------ 1. model checking
     ml = 6 if quick else 7
-    for n0 in (1, 2, 3):
+    ctx._spec_dir()
+    jobs = []
+    for n0 in ((1, 2, 3) if quick else (1, 2, 3, 4)):
         cfg = ctx.write_cfg("Logger_async_n%d.cfg" % n0, consts(n0, ml, False, qcap=2), invariants=INV_LF,
                             properties=("NoBlockLog", "Settles"), deadlock=True)
-        r = ctx.tlc_must_pass("Logger", cfg, timeout=300, name="async N=%d logs<=%d QCap=2" % (n0, ml))
-        states += r.distinct
-        transitions += r.generated
+        jobs.append((cfg, "async N=%d logs<=%d QCap=2" % (n0, ml)))
     if not quick:
         cfg = ctx.write_cfg("Logger_async_q16.cfg", consts(3, 7, False, qcap=16), invariants=INV_LF,
                             properties=("NoBlockLog", "Settles"), deadlock=True)
-        r = ctx.tlc_must_pass("Logger", cfg, timeout=300, name="async N=3 logs<=7 QCap=16")
-        states += r.distinct
-        transitions += r.generated
+        jobs.append((cfg, "async N=3 logs<=7 QCap=16"))
+    with concurrent.futures.ThreadPoolExecutor(max_workers=len(jobs)) as ex:
+        for r in ex.map(lambda j: ctx.tlc_must_pass("Logger", j[0], timeout=400, workers=4, heap="3g", name=j[1]), jobs):
+            states += r.distinct
+            transitions += r.generated
 
     # ------------------------------------------------------------------ 2. spec -> code: tour + simulation
     behs = []
     tour_edges = tour_total = 0
-    for n0 in (1, 2, 3):
+    def sync_graph(n0):
         mls = 5 if quick else (7 if n0 == 3 else 6)
         cfg = ctx.write_cfg("Logger_sync_n%d.cfg" % n0, consts(n0, mls, True), invariants=INV_LF, deadlock=False)
         r, dot = ctx.tlc_dump_graph("Logger", cfg, timeout=300)
         if not r.ok:
-            ctx.inconclusive.append("TLC Logger/%s (quiescent model) did not pass: %s" % (cfg, r.violated or r.error))
+            return n0, r, None
+        init, adj = tour.load(dot)
+        os.remove(dot)
+        return n0, r, tour.cover(init, adj, seed=ctx.seed)
+
+    with concurrent.futures.ThreadPoolExecutor(max_workers=3) as ex:
+        graphs = list(ex.map(sync_graph, (1, 2, 3)))
+    for n0, r, cv in graphs:
+        if cv is None:
+            ctx.inconclusive.append("TLC Logger (quiescent model N=%d) did not pass: %s" % (n0, r.violated or r.error))
             continue
         states += r.distinct
         transitions += r.generated
-        init, adj = tour.load(dot)
-        paths, cov, total = tour.cover(init, adj, seed=ctx.seed)
-        os.remove(dot)
+        paths, cov, total = cv
         tour_edges += cov
         tour_total += total
         for p in paths:
@@ -270,7 +315,7 @@ def run(ctx):
     simdir = ctx.path("sim")
     os.makedirs(simdir, exist_ok=True)
     nsim = 0
-    for n0, mls, num in ((4, 30, 10 if quick else 60), (7, 60, 10 if quick else 60), (12, 60, 5 if quick else 40)):
+    for n0, mls, num in (((7, 60, 20),) if quick else ((4, 30, 60), (7, 60, 60), (12, 60, 40))):
         cfg = ctx.write_cfg("Logger_sim_n%d.cfg" % n0, consts(n0, mls, True), invariants=INV_LF[:4], deadlock=False)
         r = ctx.tlc("Logger", cfg, workers=1, timeout=300, name="simulate N=%d" % n0,
                     extra=["-simulate", "file=%s/s%d,num=%d" % (simdir, n0, num), "-depth", str(mls + 1), "-seed", str(ctx.seed)])
@@ -302,6 +347,8 @@ def run(ctx):
             rep.get("cases"), ntour, tour_edges, tour_total, nsim, st.get("filters_compared")))
         # binding self-test: a harness-side mutant of the Logger (drops the oldest entry of every
         # answer) must be flagged by the same engine
+        if any(v["key"].startswith(("noblock:", "logger-crash:")) for v in ctx.violations):
+            return finish_early(ctx, states, transitions, replayed, samples)
         sub = write_behaviours(ctx, rng.sample(behs, min(300, len(behs))), "selftest")
         before = len(ctx.violations), len(ctx.inconclusive), len(ctx.engine_runs)
         mrep = ctx.go_engine("logh", "TestReplay", env={"VERIF_BEHAVIOURS": sub, "VERIF_HARNESS_MUTANT": "dropoldest"},
@@ -323,8 +370,9 @@ def run(ctx):
                                      "counterexample_RefWindow": [a.split(" line ")[0] for a, _ in r2.trace][1:]}
     cfgf = ctx.write_cfg("Logger_rs_fixed.cfg", consts(2, 4, True, sizes=(1, 2, 3), maxresize=2, fix=True),
                          invariants=("TypeOK", "FilterTerminates", "FilterSound", "RefWindow"))
-    r3 = ctx.tlc("Logger", cfgf, workers=1, timeout=120, name="Resize as repaired: FilterSound RefWindow")
-    rs_info["tlc_repaired_resize"] = "holds" if r3.ok else (r3.violated or r3.error)
+    if not quick:
+        r3 = ctx.tlc("Logger", cfgf, workers=1, timeout=120, name="Resize as repaired: FilterSound RefWindow")
+        rs_info["tlc_repaired_resize"] = "holds" if r3.ok else (r3.violated or r3.error)
     # tour of the Resize model (literal), replayed; if the code does not follow it, try the repaired model
     code_resize = "unknown"
     for variant, fix in (("literal", False), ("repaired", True)):
@@ -358,7 +406,7 @@ def run(ctx):
     # ------------------------------------------------------------------ 4. code -> spec: recorded traces
     tout = ctx.path("traces")
     trep = engine(ctx, "TestTraces", {"VERIF_CASES": 400 if quick else 4000, "VERIF_TRACE_OUT": tout,
-                                     "VERIF_TLC_LINES": 9000 if quick else 160000}, "traces")
+                                     "VERIF_TLC_LINES": 8000 if quick else 160000}, "traces")
     samples += trep.get("samples", [])[:3]
     notes += (trep.get("notes") or [])
     tstats = trep.get("stats", {})
@@ -421,11 +469,20 @@ def run(ctx):
     }
     assumptions = [
         "go9p compiled with go1.26.8 (testing/synctest) behaves as with go1.23.12",
-        "model checking bounds: capacities 1..3, <= %d Log calls, 2 owners x 2 types, channel capacity 2 (and 16); larger capacities (1..64) only by replay/trace validation" % ml,
+        "model checking bounds: capacities 1..3 (thorough: 1..4), <= %d Log calls, 2 owners x 2 types, channel capacity 2 (and 16); larger capacities (1..64) only by replay/trace validation" % ml,
         "entry order for concurrent producers is observable only per producer",
         "Resize is outside the quantifier of C20: observations about it are notes, not verdicts",
     ]
     return ctx.finish("model_checking", coverage, assumptions)
+
+
+def finish_early(ctx, states, transitions, replayed, samples):
+    """The logger goroutine hangs/spins/crashes on the very first engine: nothing else can run."""
+    return ctx.finish("model_checking", {"states": states, "transitions": transitions,
+                                         "traces_validated_against_impl": replayed, "samples": samples[:4],
+                                         "evaluations": 0, "distinct_nontrivial": 0,
+                                         "rule": "stopped early: the logger goroutine does not serve calls"},
+                      ["stopped after the first engine"])
 
 
 def selftest_corrupt(ctx, path):
